@@ -19,13 +19,14 @@ from . import c11
 
 ID = "C12"
 LEVEL = "exploration"
-TECHNIQUE = "runtime offline checker over recorded load histories against pristine outcomes from forked history-free children; state probes on the module tables; alias-graph disjointness"
+TECHNIQUE = "runtime offline checker over recorded load histories against pristine outcomes from forked history-free children; state probes on the module tables and on process-wide interpreter/library settings before and after every load; alias-graph disjointness"
 RULE = ("a pool per worker: hand-written scripts reusing the identifiers alpha, m, A, r, p0 (valid, templates, tdm, failing at syntax / undefined "
         "name after declarations / type error / inside the 2nd loop iteration / inside an include / missing include / call site), generated valid "
         "and fault-injected scripts, and probe scripts whose metadata options mention the identifiers the others define; histories are random "
         "sequences of 2-30 pool members run in one interpreter; a call is non-trivial when an earlier call of the history failed or defined the "
         "names it mentions; distinct by SHA-1 of (predecessor, script)"
-        '; pool members with (almost) equal measured-register expressions')
+        '; pool members with (almost) equal measured-register expressions'
+        '; pool members with digit strings beyond the interpreter conversion limit; process-wide settings compared around every load')
 BUDGET = {"quick": 1600, "thorough": 24000}     # histories
 MIN_NONTRIVIAL = {"quick": 2000, "thorough": 20000}
 REQUIRED_FUNCTIONS = ["listener.py:parse", "listener.py:BlackbirdListener.enterProgram", "listener.py:BlackbirdListener.exitProgram", "__init__.py:load", "__init__.py:loads"]
